@@ -239,6 +239,34 @@ void harness(void)
 			}
 			VASSERT(cb_calls == 0, "reload: copy/swap/free are silent");
 		}
+		else if (ops[k] == 5) { /* the copy half of a reload: the history continues on the shadow table itself (no struct swap:
+				       * spki_table_swap memcpy's the containers, after which CBMC treats every bucket pointer as
+				       * arbitrary bytes -- 27 GB, no verdict; the swap is decided structurally in harness_swap) */
+			struct spki_table *N = (T == &TA) ? &TB : &TA;
+			struct rtr_socket *s = ND_BOOL("src") ? &SOCK[1] : &SOCK[0];
+			int rc = spki_table_init(N, key_cb);
+
+			if (rc == SPKI_SUCCESS)
+				rc = spki_table_copy_except_socket(T, N, s);
+			VASSERT(rc == SPKI_SUCCESS || ALLOC_FAILED, "copy_except_socket: succeeds");
+#ifndef ALLOC_FAIL
+			VASSUME(rc == SPKI_SUCCESS); /* asserted above; keeps T a constant pointer for the rest of the history */
+			if (1) {
+#else
+			if (rc == SPKI_SUCCESS) {
+#endif
+				VASSERT(cb_calls == 0 || N->update_fp != NULL, "copy: callbacks only through the shadow table's own callback");
+				VASSERT(tommy_hashlin_count(&T->hashtable) == m_count() && tommy_list_count(&T->list) == m_count(),
+					"C06 copy: the live table is not modified by the copy");
+				for (unsigned int i = 0; i < MCAP; i++)
+					if (model[i].used && model[i].socket == s)
+						model[i].used = false;
+				spki_table_free_without_notify(T);
+				T = N;
+			} else {
+				spki_table_free_without_notify(N);
+			}
+		}
 		VASSERT(tommy_hashlin_count(&T->hashtable) == m_count(), "hash table holds as many entries as the set");
 	}
 
@@ -308,6 +336,27 @@ void harness(void)
 	lrtr_free(res);
 #endif
 	VASSERT(tommy_list_count(&T->list) == m_count(), "list holds as many entries as the set");
+#ifdef QUERY_LIST_WALK
+	/* content check without the lookup functions (used where both lookups make the formula too large): every
+	 * entry on the table's list is a member of the model and is found in the hash table under its own hash
+	 */
+	{
+		tommy_node *n = tommy_list_head(&T->list);
+
+		for (unsigned int i = 0; i < MCAP; i++) {
+			if (!n)
+				break;
+			struct key_entry *e = n->data;
+			struct spki_record r;
+
+			key_entry_to_spki_record(e, &r);
+			VASSERT(m_find_rec(&r) >= 0, "C10: every entry on the list is a stored key");
+			VASSERT(tommy_hashlin_search(&T->hashtable, T->cmp_fp, e, tommy_inthash_u32(e->asn)) == e,
+				"C10: every entry on the list is found in the hash table under its own hash");
+			n = n->next;
+		}
+	}
+#endif
 #ifdef ASSERT_C18
 	/* every block obtained from the configured allocator goes back to it when the table is freed */
 	cb_calls = cb_added = cb_removed = 0;
@@ -320,4 +369,47 @@ void harness(void)
 	VASSERT(vm_live == 0, "C18 spki: nothing remains allocated from the configured allocator once the table is freed");
 #endif
 	VWITNESS("spki history end");
+}
+
+/* C06 / C10: spki_table_swap exchanges the two containers of both tables completely, inside one write section of each
+ * table, and nothing else (callbacks and compare functions stay with their table object).  Structural check: no
+ * container operation runs after the swap (see the comment at operation 5).
+ */
+void harness_swap(void)
+{
+	vm_install();
+	(void)spki_table_init(&TA, key_cb);
+	(void)spki_table_init(&TB, NULL);
+	VASSUME(TA.hashtable.bucket[0] && TB.hashtable.bucket[0]);
+	if (ND_BOOL("a.has_key")) {
+		struct spki_record r = nd_key();
+
+		VASSUME(spki_table_add_entry(&TA, &r) == SPKI_SUCCESS);
+	}
+	if (ND_BOOL("b.has_key")) {
+		struct spki_record r = nd_key();
+
+		VASSUME(spki_table_add_entry(&TB, &r) == SPKI_SUCCESS);
+	}
+	const tommy_hashlin ha = TA.hashtable, hb = TB.hashtable;
+	const tommy_list la = TA.list, lb = TB.list;
+	const unsigned int wa = vl_wr_sections[vl_slot(&TA.lock)], wb = vl_wr_sections[vl_slot(&TB.lock)];
+
+	cb_calls = 0;
+	spki_table_swap(&TA, &TB);
+
+#define HL_EQ(x, y)                                                                                                       \
+	((x).bucket_bit == (y).bucket_bit && (x).bucket_max == (y).bucket_max && (x).bucket_mask == (y).bucket_mask &&   \
+	 (x).low_max == (y).low_max && (x).low_mask == (y).low_mask && (x).split == (y).split && (x).count == (y).count && \
+	 (x).state == (y).state && (x).bucket[0] == (y).bucket[0] && (x).bucket[1] == (y).bucket[1] &&                     \
+	 (x).bucket[2] == (y).bucket[2] && (x).bucket[3] == (y).bucket[3])
+	VASSERT(HL_EQ(TA.hashtable, hb) && HL_EQ(TB.hashtable, ha), "C06 spki swap: the hash tables of the two tables are exchanged completely");
+	VASSERT(TA.list == lb && TB.list == la, "C06 spki swap: the lists of the two tables are exchanged");
+	VASSERT(TA.update_fp == key_cb && TB.update_fp == NULL && TA.cmp_fp == key_entry_cmp && TB.cmp_fp == key_entry_cmp,
+		"spki swap: callbacks and compare functions stay with their table");
+	VASSERT(vl_wr_sections[vl_slot(&TA.lock)] == wa + 1 && vl_wr_sections[vl_slot(&TB.lock)] == wb + 1,
+		"C06 spki swap: one write section on each table covers the exchange");
+	VASSERT(!vl_held(&TA.lock) && !vl_held(&TB.lock), "spki swap: locks released");
+	VASSERT(cb_calls == 0, "spki swap: silent");
+	VWITNESS("spki swap end");
 }
